@@ -33,6 +33,22 @@ CHECKS = {
         "applications obey ASGI; in-memory transport models; 'only if' direction for trailers",
         "DESIGN.md §4 C02",
     ),
+    "C06": (
+        "exploration",
+        "Hypothesis-generated HTTP/1.x pipelines x segmentations x per-request application "
+        "behaviours x trio schedule seeds on virtual-time simulators of both workers; oracle = "
+        "RFC 7230 6.3 persistence reference model + ordering invariants over the global event "
+        "log + quiescence (dead-lock) detection",
+        "Pipelines of 1..6 requests (bodies, framings, Connection headers, HTTP/1.0, Expect) "
+        "delivered from one read to one byte per read; applications answer before/while/after "
+        "reading, leave the body unread, abort, or send connection: close; "
+        "keep_alive_max_requests from 1. Checked: responses complete, in order, own bodies; "
+        "instance i+1 starts after response i's last byte; bodies never leak; number served = "
+        "model; close at the instant the last response is over, announced when knowable.",
+        "in-memory transport models; early responses to unread bodies: reuse and close both "
+        "accepted; one recorded finding (C06-1) excluded by construction and reported",
+        "DESIGN.md §4 C06",
+    ),
     "C17": (
         "exploration",
         "Hypothesis-generated requests x WSGI application shapes through WSGIWrapper, the WSGI "
